@@ -27,7 +27,7 @@ def plant(t, rng, tg, n):
     for _ in range(n):
         nodes = [x for _, x in gen.nodes_of(t)]
         tgt = rng.choice(nodes)
-        k = rng.choice(["unknown", "misplaced", "invalid", "content", "attr", "softish", "double"])
+        k = rng.choice(["unknown", "misplaced", "invalid", "content", "attr", "softish", "double", "swap", "swap"])
         if k == "unknown":
             tgt[8].insert(rng.randint(0, len(tgt[8])), impl.T(rng.choice(["zzUnknown", "bogus"]), "x", [impl.T("surName", "y")]))
         elif k == "misplaced":
@@ -36,6 +36,10 @@ def plant(t, rng, tg, n):
         elif k == "double":
             tgt[8].insert(0, impl.T("zzUnknown"))
             tgt[8].insert(1, tg.min_tree(rng.choice(known), rng))
+        elif k == "swap":
+            if len(tgt[8]) > 1:
+                i = rng.randrange(len(tgt[8]) - 1)
+                tgt[8][i], tgt[8][i + 1] = tgt[8][i + 1], tgt[8][i]
         elif k == "invalid":
             if tgt[8]:
                 tgt[8].pop(rng.randrange(len(tgt[8])))
